@@ -665,6 +665,136 @@ class Sched(object):
         return self.results
 
 
+class PointSched(object):
+    """threads advance from one named program point to the next, strictly in schedule order.  A point is
+    a `line` trace event selected by `classify(frame) -> name | None`; schedule entry t = "thread t runs
+    until its next point (or its end)".  Used to replay schedules of the Lean line model (`raceStep`)."""
+
+    def __init__(self, fns, schedule, classify):
+        self.fns, self.schedule, self.classify = fns, list(schedule), classify
+        self.n = len(fns)
+        self.sems = [threading.Semaphore(0) for _ in fns]
+        self.main = threading.Semaphore(0)
+        self.done = [False] * self.n
+        self.results = [None] * self.n
+        self.trace = []
+
+    def _tracer(self, idx):
+        def local(frame, event, arg):
+            if event == 'line':
+                name = self.classify(idx, frame)
+                if name is not None:
+                    self.trace.append((idx, name))
+                    self.main.release()          # give control back to the driver
+                    self.sems[idx].acquire()     # wait for the next turn
+            return local
+
+        def glob(frame, event, arg):
+            if 'genshi/template/' in frame.f_code.co_filename:
+                return local
+            return None
+        return glob
+
+    def _run(self, idx):
+        self.sems[idx].acquire()
+        sys.settrace(self._tracer(idx))
+        try:
+            self.results[idx] = ('ok', self.fns[idx]())
+        except BaseException as e:  # noqa
+            self.results[idx] = ('exc', type(e).__name__)
+        finally:
+            sys.settrace(None)
+            self.done[idx] = True
+            self.main.release()
+
+    def run(self):
+        ths = [threading.Thread(target=self._run, args=(i,), daemon=True) for i in range(self.n)]
+        for t in ths:
+            t.start()
+        # every thread first runs up to its first point (the model's initial state), then the schedule
+        for t in list(range(self.n)) + self.schedule + [i for i in range(self.n) for _ in range(64)]:
+            if all(self.done):
+                break
+            if self.done[t]:
+                continue
+            self.sems[t].release()
+            if not self.main.acquire(timeout=30):
+                raise RuntimeError('point scheduler: thread %d does not come back' % t)
+        for t in ths:
+            t.join(30)
+        return self.results
+
+
+def _race_points():
+    """program points of Template.stream / _prepare_self, recognised by function name and source text
+    (independent of line numbers); returns classify(thread, frame) with per-thread state"""
+    import linecache
+    state = {}
+
+    def classify(idx, frame):
+        fn = frame.f_code.co_name
+        st = state.setdefault(idx, {'in475': False})
+        text = linecache.getline(frame.f_code.co_filename, frame.f_lineno).strip()
+        if fn == 'stream' and text.startswith('if not self._prepared'):
+            return 'l455'
+        if fn == '_prepare_self':
+            if text.startswith('if not self._prepared'):
+                return 'l474'
+            if text.startswith('self._stream ='):
+                st['in475'] = True
+                return 'l475'
+            if text.startswith('self._prepared = True'):
+                st['in475'] = False
+                return 'l476'
+        if fn == '_prepare' and st['in475']:
+            st['in475'] = False           # first line inside _prepare: the argument self._stream has been read
+            return 'l475run'
+        return None
+    return classify
+
+
+def race_corr(rng, n_cases, res):
+    """the line model of Template.stream/_prepare_self against the real code: random schedules of 2-3 threads
+    over the five program points; per thread finished / raised and the final flags must agree"""
+    from genshi.template import MarkupTemplate
+    src = G.HEAD + '<p py:if="a">x</p>' + G.TAIL
+    lines, cases = [], []
+    for _ in range(n_cases):
+        k = rng.choice([2, 2, 3])
+        sched = [rng.randrange(k) for _ in range(rng.choice([4, 8, 12, 16]))]
+        cases.append((k, sched))
+        full = sched + [t for t in range(k) for _ in range(6)]
+        lines.append(proto.line(Atom('C10'), Atom('race'), k, full))
+    answers = proto.run_lines(lines)
+    for (k, sched), ans in zip(cases, answers):
+        model = proto.dec(ans)
+        t = MarkupTemplate(src)
+
+        def mk():
+            def run():
+                t.stream
+                return 'finished'
+            return run
+        try:
+            ps = PointSched([mk() for _ in range(k)], sched, _race_points())
+            results = ps.run()
+        except RuntimeError as e:
+            res.count('race:sched-' + str(e)[:20])
+            continue
+        names = [p for _, p in ps.trace]
+        if not {'l455', 'l474', 'l475', 'l475run', 'l476'} <= set(names):
+            res.count('race:points-not-recognised')        # the function was rewritten: nothing to align
+            continue
+        real = [proto.B(_stream_prepared(t)), proto.B(bool(t._prepared)),
+                [Atom('finished') if r[0] == 'ok' else Atom('raised') for r in results]]
+        real = proto.dec(proto.enc(real))
+        res.streams['race'] = res.streams.get('race', 0) + 1
+        res.count('race:raised=%d' % sum(1 for r in results if r[0] != 'ok'))
+        if model != real:
+            res.disagreements.append({'stream': 'race', 'case': {'kind': 'race', 'threads': k, 'schedule': sched},
+                                      'model': trunc(model), 'real': trunc(real)})
+
+
 def oracle_threads(case, res=None):
     """two (or three) threads render one template object with different data under the scheduler;
     each must produce the solo output.  case['prepared']: whether .stream is accessed before the threads start"""
@@ -1355,10 +1485,13 @@ def run(ctx):
     mper = ctx.n(25, 600)
     for r in pmap('harness.props.c10', 'model_shard', [(ctx.seed, i, mper, variant) for i in range(nsh)]):
         res.merge(r)
+    race_corr(ctx.rng('race'), ctx.n(150, 3000), res)
     res.rule = ('generated markup templates (py: directives in attribute and element form, macros, match templates, '
                 'includes through a loader, i18n directives) x API operation sequences / next() schedules over 2-3 open '
                 'renders / 2 threads under the line scheduler; model cases: templates of the modelled fragment x '
                 'schedules of open / next / extract / stream / pickle / register compared step by step with gdrv; '
+                'race cases: random schedules of 2-3 threads over the program points of Template.stream/_prepare_self '
+                'replayed on the real code by a point scheduler and compared with raceStep; '
                 'non-trivial = at least two distinct constructs; distinct by (kind, source, number of data sets)')
     res.samples = res.samples[:6]
     return res
